@@ -74,6 +74,13 @@ def validate_output_conflicts(
     # Auto-inference mode: build complete edge map with edges from ALL producers
     node_names, edge_map = _build_full_edge_map(G, nodes, output_to_sources)
 
+    # G links a consumer to the first producer of a shared name only; a node fed
+    # by producers in two branches is not exclusive to either of them.
+    full = nx.DiGraph()
+    full.add_nodes_from(node_names)
+    full.add_edges_from(edge_map)
+    expanded_groups = _expand_mutex_groups(full, nodes)
+
     for output, sources in contested_outputs.items():
         # Find all outputs contested by THIS set of producers
         producer_set = set(sources)
